@@ -77,6 +77,9 @@ def strip_ws(text: str) -> str:
 def parse_forms(text: str, all_splits: bool):
     yield 'str', text
     yield 'file', io.StringIO(text)
+    buf = io.StringIO('"consumed" "header line"\n' + text)
+    buf.readline()
+    yield 'file_after_header', buf
     if len(text) > 5000:
         return
     yield 'lines', text.splitlines(keepends=True)
@@ -99,11 +102,24 @@ def check_doc(acc: core.Acc, specs: list, configs: list, all_splits: bool, sig: 
     before = dump(tree)
     ids_before = identities(tree, [])
     texts = []
-    for cfg in list(configs) + ['export()']:
+    for cfg in list(configs) + ['export()', 'str()', 'serialise(file)', 'serialize()']:
         acc.evaluations += 1
         try:
             if cfg == 'export()':
                 text = ''.join(tree.export())
+            elif cfg == 'str()':
+                text = str(tree)
+            elif cfg == 'serialise(file)':
+                out = io.StringIO()
+                out.write('"earlier" "content"\n')       # the writer appends to whatever the file already holds
+                res = tree.serialise(out)
+                text = out.getvalue()
+                if res is not None or not text.startswith('"earlier" "content"\n'):
+                    acc.fail('serialise_file_form', case, f'serialise(file) returned {res!r} / file now {text[:60]!r}', **sig)
+                    return
+                text = text[len('"earlier" "content"\n'):]
+            elif cfg == 'serialize()':
+                text = tree.serialize()
             else:
                 text = tree.serialise(**cfg)
         except Exception as exc:  # noqa: BLE001
